@@ -21,7 +21,7 @@ INSTS = [(0x1234, 1, 2, 7), (0x1234, 2, 2, 7), (0x1235, 1, 1, 0)]
 
 
 def bounds(tier):
-    return {"H12": "family 'fields': %d instances with differing ids/versions, FindService service/instance 16-bit, major 8-bit, minor 32-bit, TTL fully symbolic (every wildcard combination included), channel symbolic, arrival at 0 / 25 / 500 / 1040 ms (initial wait, between first offers, repetition done, cyclic phase), TTL {3, infinite} x collection timeout {0, 5 ms}; family 'times': request from {exact, all wildcards, other service, other minor}, arrival instant symbolic in 0..1500 ms, initial delay and request-response delay symbolic, optional stop of the instance (stop_announce_service) or of the announcer at a symbolic instant, channel symbolic, %s" % ((3, "1..2 instances") if tier == "thorough" else (2, "1 instance"))}
+    return {"H12": "family 'fields': %d instances with differing ids/versions, FindService service/instance 16-bit, major 8-bit, minor 32-bit, TTL fully symbolic (every wildcard combination included), channel symbolic, arrival at 0 / 25 / 500 / 1040 ms (initial wait, between first offers, repetition done, cyclic phase), TTL {3, infinite} x collection timeout {0, 5 ms}; family 'times': request from {exact, all wildcards, other service, other minor}, arrival instant symbolic in 0..1500 ms, initial delay and request-response delay symbolic, optional stop of the instance (stop_announce_service) or of the announcer at a symbolic instant, channel symbolic, %s; family 'restart': multicast request at a symbolic instant >= 200 ms, announcer stopped and started again 0..50 ms later (inside the response window), response delay symbolic, collection timeout {0, 5 ms}" % ((3, "1..2 instances") if tier == "thorough" else (2, "1 instance"))}
 
 
 FINDS = {"exact": (0x1234, 1, 2, 7), "wild": (0x1234, 0xFFFF, 0xFF, 0xFFFFFFFF), "other": (0x1235, 1, 2, 7), "minor": (0x1234, 1, 2, 8)}
@@ -46,6 +46,11 @@ def cases(tier, seed):
                     if tier == "quick" and find in ("other", "minor") and (stop or col):
                         continue
                     out.append({"h": "H12", "fam": "times", "n": nn, "ttl": 3, "collect": col, "stop": stop, "find": find, "_w": 8 * nn})
+    # family C (restart): a multicast request reaches a ready instance, the announcer is stopped
+    # and started again inside the request-response window: the delayed answer must not leave
+    # while the restarted instance is in its new initial wait phase
+    for col in (0, 5):
+        out.append({"h": "H12", "fam": "restart", "n": 1, "ttl": 3, "collect": col, "stop": 3, "find": "exact", "_w": 8})
     if tier == "quick":
         out.append({"h": "H12", "fam": "times", "n": 2, "ttl": 3, "collect": 0, "stop": 1, "find": "wild", "_w": 16})
     return out
@@ -81,8 +86,10 @@ def h12(E, M, case):
         fttl = 3
     data = mk(E, wire.sd_message(1, 0xC0, [wire.sd_entry_bytes(wire.T_FIND, 0, 0, 0, 0, fs, fi, fm, fttl, fn)], []))
     tf = case["at"] if case["fam"] == "fields" else E.int("t_find", 0, 1500)
-    mc = E.flag("multicast")
     sc = Script(loop, E)
+    if fam == "restart":
+        return _restart(E, M, case, loop, prot, ann, tr, sc, data, tf, drawn)
+    mc = E.flag("multicast")
     ts = None
     stop_joined = False
     stop_first = False
@@ -163,6 +170,45 @@ def h12(E, M, case):
             else:
                 E.require(E.And(x["t"] >= tf, x["t"] <= tf + C), "a request received by unicast is answered without added delay")
     E.require(accounted == len(uni), "only announced instances answer")
+
+
+def _restart(E, M, case, loop, prot, ann, tr, sc, data, tf, drawn):
+    C = case["collect"]
+    E.assume(tf >= 200)
+    ts = tf + E.int("d_restart", 0, 50)
+
+    def restart():
+        ann.stop()
+        ann.start()
+
+    sc.at(tf, lambda: prot.datagram_received(data, P, True), "find")
+    sc.at(ts, restart, "restart")
+    sc.flush()
+    loop.settle(1700)
+    loop_clean(E, loop)
+    E.reach("h12.end")
+    starts = [d for d in drawn if (d["lo"], d["hi"]) == (0, 100)]
+    E.require(len(starts) == 2, "one initial delay per start of the instance")
+    q1 = starts[-1]["at"] + starts[-1]["v"]
+    uni = []
+    for (t, dgram, addr) in tr.sent:
+        for msg in wire.parse_someip_all(dgram):
+            sdm = wire.parse_sd(msg["payload"])
+            for e in sdm["entries"]:
+                if addr != MC:
+                    uni.append({"t": t, "to": addr, "e": e})
+    E.observe([[x["t"], str(x["to"]), x["e"]["service"], x["e"]["instance"], x["e"]["ttl"]] for x in uni])
+    E.require(len(uni) <= 1, "an instance answers a FindService entry at most once", {"answers": len(uni)})
+    if uni:
+        E.reach("h12.answered")
+    else:
+        E.reach("h12.silent")
+    for x in uni:
+        E.require(E.And(x["to"] == P, x["e"]["type"] == wire.T_OFFER, x["e"]["ttl"] == case["ttl"]), "answers go to the requester's address only")
+        # at the tick of the restart the answer may precede it; at the tick of the new first
+        # offer (or while that offer sits in the send collector) either order is accepted
+        E.require(E.Or(x["t"] <= ts, x["t"] >= q1), "no other instance answers; instances in their initial wait phase or stopped stay silent", {"t": x["t"], "restart": ts, "first_offer_after_restart": q1})
+        E.require(E.And(x["t"] >= tf + 10, x["t"] <= tf + 50 + C), "a request received by multicast is answered after a delay inside the request-response window")
 
 
 SCENARIOS = {"H12": h12}
